@@ -173,6 +173,8 @@ type worker struct {
 	permDone   bool
 	permUsed   bool
 	cur        *frame // innermost interpreted frame (diagnostics)
+	decoderResults map[string]value
+	files          map[string]value
 	noPanicDepth int
 
 	// local stats merged at the end
@@ -418,6 +420,8 @@ func (w *worker) resetPath(prefix []int64) {
 	w.roActive = false
 	w.roCells, w.roMaps = nil, nil
 	w.allocLimit = 0
+	w.decoderResults = nil
+	w.files = nil
 	w.permute = 0
 	w.permDone = false
 	w.permUsed = false
